@@ -47,22 +47,23 @@ Proof. exact names_example. Qed.
 (* an accepted build: every node / variable once, names pairwise distinct, closed under inputs and
    variable membership, outputs the exact inverse of inputs, every node owned by the model, and a
    topological update order exists (for all code variants and every topological-sort oracle) *)
-Theorem C15_build_ok : forall strip check_first proxy_fix topo w rn rv w' m,
-  build strip check_first proxy_fix topo w rn rv = (w', Ok m) ->
+Theorem C15_build_ok : forall strip check_first proxy_fix topo copy w rn rv w' m,
+  build strip check_first proxy_fix topo copy w rn rv = (w', Ok m) ->
+  let wv := copied_world copy w' m in     (* the result world; for copy=True the copies, wired *)
   NoDup (m_nodes m) /\ NoDup (m_vars m) /\
-  NoDup (map (name_of w') (m_nodes m)) /\
-  NoDup (map (vname_of w') (m_vars m)) /\
-  (forall i a, In i (m_nodes m) -> In a (ins_of w' i) -> In a (m_nodes m)) /\
-  (forall i v, In i (m_nodes m) -> var_of w' i = Some v -> In v (m_vars m)) /\
-  (forall i j, In i (m_nodes m) -> i < List.length (w_nodes w') ->
-               (In j (outs_of w' i) <-> In j (m_nodes m) /\ In i (ins_of w' j))) /\
-  (forall i, In i (m_nodes m) -> i < List.length (w_nodes w') -> inmodel_of w' i = true) /\
-  exists order, is_topo w' (m_nodes m) order = true.
+  NoDup (map (name_of wv) (m_nodes m)) /\
+  NoDup (map (vname_of wv) (m_vars m)) /\
+  (forall i a, In i (m_nodes m) -> In a (ins_of wv i) -> In a (m_nodes m)) /\
+  (forall i v, In i (m_nodes m) -> var_of wv i = Some v -> In v (m_vars m)) /\
+  (forall i j, In i (m_nodes m) -> i < List.length (w_nodes wv) ->
+               (In j (outs_of wv i) <-> In j (m_nodes m) /\ In i (ins_of wv j))) /\
+  (forall i, In i (m_nodes m) -> i < List.length (w_nodes wv) -> inmodel_of wv i = true) /\
+  exists order, is_topo wv (m_nodes m) order = true.
 Proof. exact build_ok_spec. Qed.
 Print Assumptions C15_build_ok.
 
 Example C15_build_example :
-  match build true true true naive_topo ex_seeded [] [0] with
+  match build true true true naive_topo false ex_seeded [] [0] with
   | (w', Ok m) => map (name_of w') (m_nodes m) =
                   ["x_var_value"; "s"; "_model_s_seed"; "a"; "_model_log_prob"; "_model_log_prior"; "_model_log_lik"]%string
   | _ => False
@@ -91,15 +92,15 @@ Print Assumptions C15_cycle_has_no_order.
 
 Example C15_cycle_example :
   let w := mkW [mkN "a" [1] [] None None false false false [] []; mkN "b" [0] [] None None false false false [] []] [] [] in
-  path w 0 0 /\ snd (build true true true naive_topo w [0] []) = Err Cycle.
+  path w 0 0 /\ snd (build true true true naive_topo false w [0] []) = Err Cycle.
 Proof. exact cycle_example. Qed.
 
 (* duplicate node / variable / group names, a node of another model, or no topological order: rejected *)
-Theorem C15_rejects : forall check_first topo w ns vs,
+Theorem C15_rejects : forall check_first topo copy w ns vs,
   (~ NoDup (map (name_of w) ns) \/ ~ NoDup (map (vname_of w) vs)
    \/ ~ NoDup (map (gname_of w) (groups_of w ns vs))
-   \/ (exists i, In i ns /\ inmodel_of w i = true) \/ topo w ns = None) ->
-  exists e, snd (model_init check_first topo w ns vs) = Err e.
+   \/ (copy = false /\ exists i, In i ns /\ inmodel_of w i = true) \/ topo w ns = None) ->
+  exists e, snd (model_init check_first topo copy w ns vs) = Err e.
 Proof. exact model_init_rejects. Qed.
 Print Assumptions C15_rejects.
 
@@ -109,8 +110,15 @@ Theorem C15_frozen : forall proxy_fix w t mu,
 Proof. exact mutate_frozen. Qed.
 Print Assumptions C15_frozen.
 
+(* the same for the ARGUMENT of the value_node / dist_node setters: a node of a live model cannot be made
+   part of a variable, whatever variable receives it *)
+Theorem C15_frozen_argument : forall proxy_fix w t mu,
+  arg_inmodel w mu = true -> mutate proxy_fix w t mu = (w, Err Frozen).
+Proof. exact mutate_frozen_arg. Qed.
+Print Assumptions C15_frozen_argument.
+
 Example C15_frozen_example :
-  match build true true true naive_topo ex_seeded [] [0] with
+  match build true true true naive_topo false ex_seeded [] [0] with
   | (w', Ok m) => mutate true w' (TNode 1) (MSetName "t") = (w', Err Frozen) /\ mutate true w' (TVar 0) (MSetName "t") = (w', Err Frozen)
   | _ => False
   end.
@@ -118,8 +126,8 @@ Proof. exact frozen_example. Qed.
 
 (* a build rejected by Model.__init__ (repaired code) changes nothing; the code as found cleared the
    outputs of a node of the live model (defect F9) *)
-Theorem C15_rejected_init_unchanged : forall topo w ns vs w' e,
-  model_init true topo w ns vs = (w', Err e) -> w' = w.
+Theorem C15_rejected_init_unchanged : forall topo copy w ns vs w' e,
+  model_init true topo copy w ns vs = (w', Err e) -> w' = w.
 Proof. exact model_init_rejected_unchanged. Qed.
 Print Assumptions C15_rejected_init_unchanged.
 
@@ -128,9 +136,9 @@ Proof. exact rejected_build_keeps_outputs_example. Qed.
 
 Theorem C15_rejected_build_clears_outputs_refuted :
   exists w rn rv i,
-    match build true false true naive_topo w rn rv with
+    match build true false true naive_topo false w rn rv with
     | (w1, Ok m) =>
-      match build true false true naive_topo w1 [i] [] with
+      match build true false true naive_topo false w1 [i] [] with
       | (w2, Err InModel) => In i (m_nodes m) /\ outs_of w1 i <> outs_of w2 i
       | _ => False
       end
@@ -146,7 +154,7 @@ Theorem C15_pop_spec : forall w m j,
 Proof. intros w m j. split; [apply pop_spec|apply pop_keeps_structure]. Qed.
 Print Assumptions C15_pop_spec.
 
-Theorem C15_pop_unfreezes : forall proxy_fix w m i mu, In i (m_nodes m) ->
+Theorem C15_pop_unfreezes : forall proxy_fix w m i mu, In i (m_nodes m) -> arg_inmodel (pop w m) mu = false ->
   mutate proxy_fix (pop w m) (TNode i) mu = (do_mutation proxy_fix (pop w m) (TNode i) mu, Ok tt).
 Proof. exact pop_unfreezes. Qed.
 Print Assumptions C15_pop_unfreezes.
@@ -157,7 +165,7 @@ Print Assumptions C15_pop_unfreezes.
 Theorem C15_pop_rebuild_seeded_partial :
   match rebuild true ex_seeded [] [0] with
   | (w2, Ok m1, Ok m2) =>
-    match build true true true naive_topo w2 (popped_nodes w2 m1) (m_vars m1) with
+    match build true true true naive_topo false w2 (popped_nodes w2 m1) (m_vars m1) with
     | (w3, Ok m3) =>
       List.length (m_nodes m3) = List.length (m_nodes m1) /\
       forall s, In s (map (name_of w3) (m_nodes m3)) <-> In s (map (name_of w2) (m_nodes m1))
@@ -188,7 +196,7 @@ Proof. exact set_var_name_renames_proxy. Qed.
 Print Assumptions C15_var_name_renames_proxy.
 
 Example C15_unnamed_vars_named_values_example :
-  match build true true true naive_topo ex_proxies [] [0; 1] with
+  match build true true true naive_topo false ex_proxies [] [0; 1] with
   | (w', Ok m) => map (vname_of w') (m_vars m) = ["v0"; "v1"]%string /\
                   In "v0_var_value"%string (map (name_of w') (m_nodes m)) /\
                   In "v1_var_value"%string (map (name_of w') (m_nodes m))
@@ -199,7 +207,27 @@ Proof. exact unnamed_vars_named_values_example. Qed.
 Theorem C15_unnamed_vars_named_values_refuted :
   exists w rv,
     NoDup (filter (fun s => negb (String.eqb s "_var_value")) (map n_name (w_nodes w))) /\
-    snd (build true true false naive_topo w [] rv) = Err DupNode /\
-    is_ok (snd (build true true true naive_topo w [] rv)) = true.
+    snd (build true true false naive_topo false w [] rv) = Err DupNode /\
+    is_ok (snd (build true true true naive_topo false w [] rv)) = true.
 Proof. exact unnamed_vars_named_values_refuted. Qed.
 Print Assumptions C15_unnamed_vars_named_values_refuted.
+
+(* copy=True: Model.__init__ leaves the originals exactly as they are (accepted or rejected) - also when
+   they belong to a live model; the live model keeps its outputs *)
+Theorem C15_copy_keeps_originals : forall check_first topo w ns vs w' r,
+  model_init check_first topo true w ns vs = (w', r) -> w' = w.
+Proof. exact model_init_copy_keeps_originals. Qed.
+Print Assumptions C15_copy_keeps_originals.
+
+Example C15_copy_build_from_live_model_example :
+  match build true true true naive_topo false ex_chain [2] [] with
+  | (w1, Ok m1) =>
+    match build true true true naive_topo true w1 [2] [] with
+    | (w2, Ok m2) => map (getn w2) (m_nodes m1) = map (getn w1) (m_nodes m1) /\
+                     map (outs_of w2) [0; 1; 2] = [[1]; [2]; []] /\
+                     map (name_of w2) (m_nodes m2) = ["_model_log_prob"; "_model_log_prior"; "_model_log_lik"; "c"; "b"; "a"]%string
+    | _ => False
+    end
+  | _ => False
+  end.
+Proof. exact copy_build_from_live_model_example. Qed.
